@@ -5,8 +5,9 @@
 (* lemmas that tie the oracles together and justify lifting:                    *)
 (*  - mirror symmetry between FindSub and RFindSub,                             *)
 (*  - the greedy sequences start with FindSub / RFindSub,                       *)
-(*  - LiftLemma: under synchronising block substitution a -> a pad^(s-1) with   *)
+(*  - LiftLemma: under synchronising block substitution a -> pad^q a pad^(s-1-q), *)
 (*    pl / pr pad bytes of padding, every oracle maps through i -> pl + s*i.    *)
+(*  - TruncLemma: oracles of prefixes / suffixes of the haystack.               *)
 EXTENDS Bytes, TLC, Json
 CONSTANTS Alpha, MinN, MaxN, MaxH, Scales, CheckLift, Emit,
           Hole,     \* FALSE: haystacks over Alpha; TRUE: one position of the haystack is replaced by HoleSym
@@ -35,9 +36,11 @@ Init == /\ IF NearMiss THEN NearMissInit
         /\ done = FALSE
 Next == ~done /\ done' = TRUE /\ UNCHANGED <<n, h>>
 Pad == 99                                     \* a symbol outside Alpha
-RECURSIVE Phi(_, _)
-Phi(x, s) == IF Len(x) = 0 THEN <<>> ELSE <<x[1]>> \o [i \in 1..s - 1 |-> Pad] \o Phi(Tail(x), s)
-LiftHay(x, s, pl, pr) == [i \in 1..pl |-> Pad] \o Phi(x, s) \o [i \in 1..pr |-> Pad]
+\* block substitution a -> pad^q a pad^(s-1-q): q = 0 puts the symbol first, q = s-1 last (lifted needles then end with
+\* a real symbol), q = s \div 2 in the middle
+RECURSIVE Phi(_, _, _)
+Phi(x, s, q) == IF Len(x) = 0 THEN <<>> ELSE [i \in 1..q |-> Pad] \o <<x[1]>> \o [i \in 1..s - 1 - q |-> Pad] \o Phi(Tail(x), s, q)
+LiftHay(x, s, q, pl, pr) == [i \in 1..pl |-> Pad] \o Phi(x, s, q) \o [i \in 1..pr |-> Pad]
 MapI(i, s, pl) == IF i < 0 THEN -1 ELSE pl + s * i
 MapSeq(q, s, pl) == [k \in 1..Len(q) |-> pl + s * q[k]]
 Mirror == done => RFindSub(h, n) = (IF FindSub(Reverse(h), Reverse(n)) < 0 THEN -1 ELSE Len(h) - Len(n) - FindSub(Reverse(h), Reverse(n)))
@@ -45,12 +48,19 @@ GreedyHeads == done =>
                /\ (FindSub(h, n) >= 0 <=> Len(GreedyFwd(h, n)) > 0) /\ (FindSub(h, n) >= 0 => GreedyFwd(h, n)[1] = FindSub(h, n))
                /\ (RFindSub(h, n) >= 0 <=> Len(GreedyRev(h, n)) > 0) /\ (RFindSub(h, n) >= 0 => GreedyRev(h, n)[1] = RFindSub(h, n))
 LiftLemma == (done /\ CheckLift /\ Len(n) > 0) =>
-  \A s \in Scales : \A p \in Pads :
-     LET H == LiftHay(h, s, p[1], p[2])  N == Phi(n, s) IN
+  \A s \in Scales : \A p \in Pads : \A q \in {0, s - 1, s \div 2} :
+     LET H == LiftHay(h, s, q, p[1], p[2])  N == Phi(n, s, q) IN
      /\ FindSub(H, N) = MapI(FindSub(h, n), s, p[1])
      /\ RFindSub(H, N) = MapI(RFindSub(h, n), s, p[1])
      /\ GreedyFwd(H, N) = MapSeq(GreedyFwd(h, n), s, p[1])
      /\ GreedyRev(H, N) = MapSeq(GreedyRev(h, n), s, p[1])
+\* TruncLemma: the leftmost occurrence in a prefix of the haystack (the rightmost in a suffix) follows from the
+\* full-haystack oracle -- used by the slow vehicles to probe boundary lengths without new oracle runs.
+TruncLemma == done =>
+  \A L \in 0..Len(h) :
+     LET f == FindSub(h, n)  r == RFindSub(h, n)  cut == Len(h) - L IN
+     /\ FindSub(SubSeq(h, 1, L), n) = (IF f >= 0 /\ f + Len(n) <= L THEN f ELSE -1)
+     /\ RFindSub(SubSeq(h, cut + 1, Len(h)), n) = (IF r >= 0 /\ r >= cut THEN r - cut ELSE -1)
 Vector == [m |-> "mm", n |-> n, h |-> h, find |-> FindSub(h, n), rfind |-> RFindSub(h, n), fwd |-> GreedyFwd(h, n), rev |-> GreedyRev(h, n)]
 EmitReplay == (Emit /\ done) => PrintT(<<"REPLAY", ToJson(Vector)>>)
 =============================================================================
